@@ -365,6 +365,8 @@ class Engine:
                 if self.access_hook:
                     self.access_hook(st, kind, a, n, region)
                 return a
+            if av < 0x10000:
+                st.events.append(("null-deref", kind, av, n))
         if self.access_hook:
             self.access_hook(st, kind, a, n, "sym")
         if self._mentions_app_addr(a):
@@ -697,6 +699,9 @@ class Engine:
             if not self.feasible(cur, nz):
                 return out
             cur.pc.append(simp(nz))
+        if getattr(self, "strlen_assume_bound", False):
+            # stated bound of the claim: strings whose terminator lies beyond maxn bytes are outside it
+            return out
         cur.status = "unwind"
         cur.info = "strlen bound %d exceeded" % maxn
         out.append((cur, None))
